@@ -2,6 +2,7 @@ package asm
 
 import (
 	"fmt"
+	"strings"
 
 	"github.com/llir/ll/ast"
 	asmenum "github.com/llir/llvm/asm/enum"
@@ -286,6 +287,11 @@ func (fgen *funcGen) irCallInst(new ir.Instruction, old *ast.CallInst) error {
 		panic(fmt.Errorf("invalid IR instruction for AST instruction; expected *ir.InstCall, got %T", new))
 	}
 	// Function arguments.
+	if strings.HasSuffix(strings.TrimSpace(old.Args().LlvmNode().Text()), "...") {
+		// The IR has no representation of the variadic arguments forwarded by
+		// a musttail call (`call ... @f(i32 %x, ...)`).
+		return errors.Errorf("support for forwarded variadic arguments ('...') in call to %q not yet implemented", old.Callee().LlvmNode().Text())
+	}
 	if oldArgs := old.Args().Args(); len(oldArgs) > 0 {
 		inst.Args = make([]value.Value, len(oldArgs))
 		for i, oldArg := range oldArgs {
